@@ -17,7 +17,7 @@ itself fails on the input it is reported as a failing input of C01.
 
 Not modelled (counted as `not_modelled`, never compared): types containing REAL, open types / ANY.
 The regions of the known XER findings need no skipping here because the model reproduces them
-(F30 trailing newline not consumed, F76 SET / SEQUENCE treat an absent DEFAULT differently in BASIC-XER).
+(F30 trailing newline not consumed; F76 - SET / SEQUENCE treated an absent DEFAULT differently in BASIC-XER - is repaired).
 Repaired findings (the model follows the repaired code, nothing is skipped, the former witnesses are part of the
 fixed module / the directed decoder inputs `DIRECTED`):
   F56  CANONICAL-XER does not encode a component that holds its DEFAULT value, stored or absent;
@@ -25,7 +25,11 @@ fixed module / the directed decoder inputs `DIRECTED`):
        control characters);
   F152 `&#;` `&#x;` `&#0;` are a decoding error (it was an assert);
   F59  white space between the tags of a BOOLEAN element and its `<true/>` / `<false/>` is accepted;
-  F153 a value tag called like the element (`<red><red/></red>`, `<true><true/></true>`, `<nul><nul/></nul>`) decodes.
+  F153 a value tag called like the element (`<red><red/></red>`, `<true><true/></true>`, `<nul><nul/></nul>`) decodes;
+  F65  (= the formerly proposed F151) an extensible SET is written in the order of its `tag2el_cxer` table - the root in canonical
+       tag order, then the additions in textual order - whatever the first octets of the two tag tables are;
+  F76  BASIC-XER of a SET writes an absent DEFAULT member with its default value, like a SEQUENCE;
+  F125 the decimal numeral of an `unsigned long` INTEGER decodes over the whole range 0 .. 2^64-1.
 """
 import collections, re
 from . import build, genmod, bundle, sexp
@@ -87,6 +91,10 @@ def fixed_module(rng, quick=True):
                     (1 << 63) - 1, -(1 << 63), 1000000000000, -999999999999])
     add("XU32", T("INTEGER", cons=genmod.cons(0, 4294967295)), [0, 1, 4294967295, 2147483648])
     add("XWide", T("INTEGER", cons=genmod.cons(-1, (1 << 63) - 1)), [-1, 0, (1 << 63) - 1, 1 << 40])
+    # unsigned long over its whole range (finding F125 repaired: 2^63 and above were written but did not decode)
+    add("XUMax", T("INTEGER", cons=genmod.cons(0, None)), [0, 1, (1 << 63) - 1, 1 << 63, (1 << 63) + 1, (1 << 64) - 2, (1 << 64) - 1, rng.randrange(1 << 63, 1 << 64)])
+    add("XUSeq", _sq("SEQUENCE", [("u", T("INTEGER", cons=genmod.cons(5, None))), ("l", T("SEQUENCE OF", elem=T("REF", name="XUMax"), size=None))]),
+        [{"u": 5, "l": []}, {"u": (1 << 64) - 1, "l": [1 << 63, 0, (1 << 64) - 1]}])
     add("XBool", B, [True, False]); add("XNull", N, [None])
     add("XEnum", E, [0, 1, 2]); add("XEnum2", E2, [5, -3, 300])
     add("XOct", O, [b""] + [rb(n) for n in (1, 2, 15, 16, 17, 31, 32, 33, 48, 49)] + [bytes(range(256))])
@@ -160,6 +168,14 @@ def fixed_module(rng, quick=True):
     add("XSeqED", _sq("SEQUENCE", [("a", I), ("x", I, ("DEFAULT", "9", 9)), ("y", B, ("DEFAULT", "FALSE", False))], ext=1),
         [{"a": 1}, {"a": 1, "x": 9}, {"a": 1, "x": 9, "y": False}, {"a": 1, "x": 8, "y": True}])
     add("XSetE", _sq("SET", [("a", dict(I, tag=(C, 5, ""))), ("x", dict(B, tag=(C, 1, "")))], ext=1), [{"a": 1}, {"a": 1, "x": True}])
+    # extensible SETs (finding F65 repaired: the tag2el_cxer table - root in canonical tag order, then the additions in textual
+    # order - was dropped by a memcmp over `count` BYTES): additions with smaller / larger tags, of another class
+    A = "app"
+    add("XSetE2", _sq("SET", [("a", dict(I, tag=(C, 5, ""))), ("b", dict(B, tag=(A, 1, "")))], ext=1), [{"a": 5}, {"a": 5, "b": True}])
+    add("XSetE3", _sq("SET", [("c", dict(I, tag=(C, 7, ""))), ("a", dict(B, tag=(C, 3, ""))), ("z", dict(U, tag=(C, 9, ""))), ("y", dict(N, tag=(C, 0, ""))),
+                              ("x", dict(I, tag=(A, 2, "")), "OPTIONAL")], ext=2),
+        [{"c": 1, "a": True}, {"c": 2, "a": False, "z": "t", "y": None, "x": 3}, {"c": 3, "a": True, "y": None}])
+    add("XSetE4", _sq("SET", [("b", dict(B, tag=(C, 1, ""))), ("a", dict(I, tag=(C, 0, ""))), ("x", dict(I, tag=(C, 2, "")))], ext=2), [{"b": True, "a": 1}, {"b": False, "a": 2, "x": 3}])
     # --- CHOICE: nested, extensible
     add("XChE", _ch([("a", I), ("b", T("REF", name="XCh")), ("c", N)], ext=2), [("a", 1), ("b", ("q", None)), ("b", ("s", "t")), ("c", None)])
     return {"name": "XF", "tagdefault": "AUTOMATIC", "types": types}, vals
@@ -180,19 +196,6 @@ def _types_below(t, env, seen=None):
         for c in t["comps"]: yield from _types_below(c["type"], env, seen)
     elif k in ("SEQUENCE OF", "SET OF"):
         yield from _types_below(t["elem"], env, seen)
-
-def set_order_ambiguous(t, env, tagdefault):
-    """asn1c_lang_C_type_SET_def compares the two tag tables with memcmp(.., tag2el_count) - a byte count: which of
-    them SET_encode_xer walks depends on struct padding / tag mode octets when an extension addition carries the
-    smallest tag of the SET (proposed finding F151); the model assumes 'equal' when the tag classes agree"""
-    from .props import c02_uper
-    for x in _types_below(t, env):
-        if x["k"] != "SET" or x.get("ext") is None or x["ext"] >= len(x["comps"]): continue
-        if c02_uper._auto(x, tagdefault): continue
-        keys = [c02_uper.order_key(c["type"], env, tagdefault) for c in x["comps"]]
-        n = x["ext"]
-        if n == 0 or min(keys[n:]) < min(keys[:n]): return True
-    return False
 
 # decoder inputs aimed at the repaired findings F152 / F59 / F153 (type of the fixed module, input); the model and
 # C must agree on each of them like on every generated variant
@@ -222,6 +225,15 @@ DIRECTED = [
     ("XOct", b"<XOct>01<XOct/></XOct>"), ("XNull", b"<XNull><XNull/></XNull>"), ("XBits", b"<XBits><XBits/>1</XBits>"),
     ("XChClash", b"<XChClash><true><true/></true></XChClash>"), ("XChClash", b"<XChClash><red><red/></red></XChClash>"),
     ("XChClash", b"<XChClash><esc><esc/>[</esc></XChClash>"), ("XChClash", b"<XChClash><esc/></XChClash>"),
+    # F125: the numeral of an unsigned long beyond LONG_MAX (asn_strtoumax_lim after asn_strtoimax_lim hit the range limit), and its neighbours
+    ("XUMax", b"<XUMax>9223372036854775808</XUMax>"), ("XUMax", b"<XUMax>18446744073709551615</XUMax>"), ("XUMax", b"<XUMax>18446744073709551616</XUMax>"),
+    ("XUMax", b"<XUMax>+9223372036854775808</XUMax>"), ("XUMax", b"<XUMax>0009223372036854775808</XUMax>"), ("XUMax", b"<XUMax> 18446744073709551615\n</XUMax>"),
+    ("XUMax", b"<XUMax>-1</XUMax>"), ("XUMax", b"<XUMax>-9223372036854775808</XUMax>"), ("XUMax", b"<XUMax>-9223372036854775809</XUMax>"), ("XUMax", b"<XUMax>-0</XUMax>"),
+    ("XUMax", b"<XUMax>99999999999999999999</XUMax>"), ("XUMax", b"<XUMax>184467440737095516150</XUMax>"), ("XUMax", b"<XUMax>00:80:00:00:00:00:00:00:00</XUMax>"),
+    ("XUMax", b"<XUMax>01:00:00:00:00:00:00:00:00</XUMax>"), ("XUMax", b"<XUMax>80</XUMax>"), ("XUMax", b"<XUMax>9223372036854775808:</XUMax>"),
+    ("XInt", b"<XInt>9223372036854775808</XInt>"), ("XInt", b"<XInt>-9223372036854775809</XInt>"), ("XInt", b"<XInt>18446744073709551615</XInt>"),
+    ("XU32", b"<XU32>9223372036854775808</XU32>"), ("XU32", b"<XU32>18446744073709551615</XU32>"), ("XWide", b"<XWide>9223372036854775808</XWide>"),
+    ("XEnum", b"<XEnum>9223372036854775808</XEnum>"),
 ]
 
 # ------------------------------------------------------------------------------------------------ variants of an encoding
@@ -380,7 +392,6 @@ def k_leg_xer(ctx, cases, nvar, max_text=6000):
         cl, ml, meta = [], [msx], []
         for n, t in m["types"]:
             if not_modelled(t, env): st["not_modelled"] += 2 * len(vals.get(n, [])); continue
-            if set_order_ambiguous(t, env, m.get("tagdefault")): st["skipped_F151_set_order"] += 2 * len(vals.get(n, [])); continue
             for v in vals.get(n, []):
                 sx = genmod.val_sexp(t, v, env)
                 if len(sx) > 4 * max_text: st["skipped_large"] += 2; continue
